@@ -47,7 +47,7 @@ theorem deliverOne_ledger {it : QItem} {w w' : World} (h : (deliverOne it).run.r
     cases hs with
     | none => simp only at hd; rw [hd, hde]; split <;> rfl
     | some hs =>
-      obtain ⟨owned, wh, _, hd⟩ := hd
+      obtain ⟨owned, wh, _, _, hd⟩ := hd
       rw [hd, hde]
       split
       · rfl
@@ -60,11 +60,45 @@ theorem deliverOne_ledger {it : QItem} {w w' : World} (h : (deliverOne it).run.r
     cases hs with
     | none => simp only at hd; rw [hd, if_pos hn]
     | some hs =>
-      obtain ⟨owned, wh, _, hd⟩ := hd
+      obtain ⟨owned, wh, _, _, hd⟩ := hd
       rw [hd]
       split
       · rfl
       · rw [if_pos ⟨hk, hn⟩]
+
+/-- **Disposition on a panic.** When a delivery throws `panic c`, the in-flight event is written to the event ledger
+    exactly once — by the `take` of a handler (flag set; the unwinding guard then leaves it alone) or by the unwinding
+    guard (flag clear), never both — and the only other entry the delivery can have written is `rej`: the one event a
+    failing `Sender::send` rejected and destroyed on its way out (at most one, since that send panics). -/
+theorem deliverOne_panic_ledger {it : QItem} {w w' : World} {c : String}
+    (h : (deliverOne it).run.run w = (.error (.panic c), w')) (hok : UserEntryOk w it) :
+    ∃ rej : List Nat, rej.length ≤ 1 ∧
+      ((w'.inflightOwned = true ∧ w'.edrops = rej ++ ledgerOf it ++ w.edrops) ∨
+       (w'.inflightOwned = false ∧ w'.edrops = ledgerOf it ++ rej ++ w.edrops)) := by
+  obtain ⟨info, hinfo, hd⟩ := deliverOne_panic_edrops h
+  cases hu : it.isUser with
+  | false =>
+    have hl := ledgerOf_not_user hu
+    have hde : ∀ l, dropE it l = l := fun l => by rw [dropE_eq, hl]; rfl
+    rcases hd with ⟨rej, hr, hd⟩ | ⟨_, hf, he⟩
+    · refine ⟨rej, hr, ?_⟩
+      rw [hl]
+      rcases hd with ⟨hf, he⟩ | ⟨hf, he⟩
+      · exact .inl ⟨hf, by rw [he, hde]; simp⟩
+      · refine .inr ⟨hf, ?_⟩
+        rw [he, hde]
+        split <;> simp
+    · exact ⟨[], by simp, .inr ⟨hf, by rw [he, hl]; rfl⟩⟩
+  | true =>
+    obtain ⟨info', hi', hn, hk⟩ := hok hu
+    rw [hinfo] at hi'
+    cases hi'
+    rcases hd with ⟨rej, hr, hd⟩ | ⟨hk', _, _⟩
+    · refine ⟨rej, hr, ?_⟩
+      rcases hd with ⟨hf, he⟩ | ⟨hf, he⟩
+      · exact .inl ⟨hf, by rw [he, dropE_eq, List.append_assoc]⟩
+      · exact .inr ⟨hf, by rw [he, if_pos hn, dropE_eq, List.append_assoc]⟩
+    · exact absurd hk hk'
 
 theorem Step.ledger {w it w' seg} (h : Step deliverOne w it w' seg) (hok : UserEntryOk w it) :
     w'.edrops = ledgerOf it ++ w.edrops := by
